@@ -160,6 +160,9 @@ def run(run, rng):
             # passwords that are not in Unicode normal form C (a base letter followed by a combining mark, as some keyboards and macOS produce them; the Greek
             # question mark U+037E): the training password is that sequence of code points
             case['items'] += [[w, rng.choice([1, 2])] for w in rng.sample(['cafe\u0301', '\u0438\u0306ra1', '\u0391\u0301lpha', 'a\u030a9', 'why\u037e'], 2)]
+        if i % 10 == 6 and case['encoding'] == 'utf-8':
+            # alpha runs that begin with a capital and hold letters without case between cased ones
+            case['items'] += [[w, rng.choice([1, 2])] for w in rng.sample(['Tokyo\u6771\u4eactower', 'Shalom\u05e9\u05dc\u05d5\u05ddworld1', 'Star\u0e44\u0e17\u0e22test', 'a\u4e2db'], 2)]
         if i % 9 == 4 and not case.get('prefixcount'):
             # lines the trainer has to skip, written as $HEX[..]: what they decode to holds a TAB / line separator (a password no line-oriented file can hold).
             # They are frequent, so that a terminal made from one would not be the last line of its file
